@@ -19,7 +19,7 @@ ADV_ATOMS = [
 PLAIN_ATOMS = ["a", "b", "c", "Q", "x", "1", "2", " ", "é", "-", "_", "."]
 WORDS = ["alpha", "beta", "gamma", "delta", "omega", "sigma", "kappa", "zeta"]
 
-LANGS = ["English (en)", "French (fr)", "es", "Klingon", "default"]
+LANGS = ["English (en)", "French (fr)", "es", "Klingon", "default", "English", "French"]
 
 NAME_PREFIX = ["q", "a", "x_", "n-", "v.", "é", "_", "Q", "k9"]
 
